@@ -604,3 +604,225 @@ theorem foot_below (classes : List ClassSpec) (fuel : Nat) :
       | _ => simp [hc] at hw
 
 end Aoe.Props.CommitFrame
+
+namespace Aoe.Props.CommitFrame
+open Aoe Aoe.Codec Aoe.Lens Aoe.Commit Aoe.Props.Links
+open Aoe.Props.C05 (Diverge frame get_set)
+
+/-! ## a committed struct list holds as many records as the manager holds objects (C04) -/
+
+theorem diverge_append (p q r : List Step) (h : Diverge p q) : Diverge (p ++ r) q := by
+  induction p generalizing q with
+  | nil => cases q <;> exact absurd h id
+  | cons a p ih =>
+    cases q with
+    | nil => exact absurd h id
+    | cons b q =>
+      rcases h with h | ⟨h1, h2⟩
+      · exact Or.inl h
+      · exact Or.inr ⟨h1, ih q h2⟩
+
+/-- unresolved path of a refresh destination, relative to the link path -/
+def destPPath (path : List PStep) : Dest → List PStep
+  | .self i => path.dropLast ++ [PStep.fld i]
+  | .sec sc i => [PStep.fld sc, PStep.fld i]
+
+theorem resolve_dropLast (hist : List Nat) (path : List PStep) (p : List Step) (h : resolve hist path = some p) :
+    resolve hist path.dropLast = some p.dropLast := by
+  by_cases hne : path = []
+  · subst hne
+    simp only [resolve, Option.some.injEq] at h
+    subst h; rfl
+  · have hsplit : path = path.dropLast ++ [path.getLast hne] := (List.dropLast_concat_getLast hne).symm
+    generalize path.getLast hne = x at hsplit
+    generalize path.dropLast = dl at hsplit ⊢
+    subst hsplit
+    rw [resolve_append] at h
+    cases hd : resolve hist dl with
+    | none => simp [hd] at h
+    | some pa =>
+      simp only [hd, Option.bind] at h
+      cases x with
+      | fld i =>
+        simp only [resolve, Option.map, Option.some.injEq] at h
+        subst h; simp
+      | hidx k =>
+        simp only [resolve] at h
+        cases hk : hist[k]? with
+        | none => simp [hk] at h
+        | some n =>
+          simp only [hk, Option.map, Option.some.injEq] at h
+          subst h; simp
+
+theorem resolve_dest (hist : List Nat) (path : List PStep) (p : List Step) (d : Dest)
+    (hp : resolve hist path = some p) : resolve hist (destPPath path d) = some (d.path (dropLastStep p)) := by
+  cases d with
+  | self i =>
+    simp only [destPPath, Dest.path, dropLastStep, resolve_append, resolve_dropLast hist path p hp]
+    simp [resolve]
+  | sec sc i => simp [destPPath, Dest.path, resolve]
+
+/-- static: everything the push of link `l` writes (its retriever, its refresh targets, its child objects) stays away
+from the unresolved path `target` -/
+def linkAway (classes : List ClassSpec) (fuel k : Nat) (target : List PStep) (l : LinkKind) : Bool :=
+  match l with
+  | .plain path acts _ => PDiverge path target && acts.all (fun a => PDiverge (destPPath path a.dest) target)
+  | .objs path ccls _ _ _ acts _ =>
+    PDiverge path target && acts.all (fun a => PDiverge (destPPath path a.dest) target) &&
+      wellNested classes fuel ccls path k
+  | _ => true
+
+/-- … semantically: any predicate kept by all writes that diverge from the target is kept by the push of `l` -/
+theorem linkAway_pres (classes : List ClassSpec) (fuel : Nat) (hist : List Nat) (target : List PStep) (t : List Step)
+    (ht : resolve hist target = some t) (Q : Val → Prop) (hQ : ∀ w, Diverge w t → Pres Q w)
+    (lv : (Nat × LinkKind) × Val) (h : linkAway classes fuel hist.length target lv.1.2 = true) :
+    AllPres Q (linkFoot (foot classes fuel) hist lv) := by
+  obtain ⟨⟨a, k⟩, v⟩ := lv
+  intro w hw
+  cases k with
+  | hist n => simp [linkFoot] at hw
+  | skip => simp [linkFoot] at hw
+  | plain path acts names =>
+    simp only [linkAway, Bool.and_eq_true] at h
+    simp only [linkFoot] at hw
+    cases hr : resolve hist path with
+    | none => simp [hr] at hw
+    | some p =>
+      simp only [hr, List.mem_cons, List.mem_map] at hw
+      rcases hw with rfl | ⟨act, hact, rfl⟩
+      · exact hQ _ (resolve_diverge hist path target _ t hr ht h.1)
+      · exact hQ _ (resolve_diverge hist _ target _ t (resolve_dest hist path p act.dest hr) ht
+                      (List.all_eq_true.mp h.2 act hact))
+  | objs path ccls defaults childNames guards acts names =>
+    simp only [linkAway, Bool.and_eq_true] at h
+    simp only [linkFoot] at hw
+    cases hr : resolve hist path with
+    | none => simp [hr] at hw
+    | some p =>
+      cases v with
+      | list os =>
+        simp only [hr, List.mem_cons, List.mem_append, List.mem_map, List.mem_flatMap] at hw
+        rcases hw with rfl | ⟨act, hact, rfl⟩ | ⟨oi, hoi, hwc⟩
+        · exact hQ _ (resolve_diverge hist path target _ t hr ht h.1.1)
+        · exact hQ _ (resolve_diverge hist _ target _ t (resolve_dest hist path p act.dest hr) ht
+                        (List.all_eq_true.mp h.1.2 act hact))
+        · obtain ⟨r, rfl⟩ := foot_below classes fuel ccls path hist oi.2 oi.1 p hr h.2 w hwc
+          exact hQ _ (diverge_append p t _ (resolve_diverge hist path target _ t hr ht h.1.1))
+      | _ => simp [hr] at hw
+
+/-- **a committed struct list holds exactly as many records as the object holds objects**: the push of the
+object-list link establishes it, the child commits write strictly below their records, and every link pushed
+afterwards stays away from the list (all side conditions are decidable checks on the generated class table) -/
+theorem commit_objs_len (classes : List ClassSpec) (fuel cls : Nat) (hist : List Nat) (vals : List Val) (s s' : Sections)
+    (c : ClassSpec) (hc : classes[cls]? = some c)
+    (h : commitObj classes (fuel + 1) cls hist (.strct vals) s = .ok s')
+    (L1 L2 : List ((Nat × LinkKind) × Val)) (a : Nat) (path : List PStep) (ccls : Nat) (defaults : List Val)
+    (childNames : List Nat) (guards : List (Nat × Expr)) (acts : List RefreshAct) (names : List Nat) (os : List Val)
+    (hsplit : c.links.zip vals = L1 ++ ((a, .objs path ccls defaults childNames guards acts names), .list os) :: L2)
+    (p : List Step) (hp : resolve hist path = some p)
+    (hnest : wellNested classes fuel ccls path hist.length = true)
+    (hown : acts.all (fun x => PDiverge (destPPath path x.dest) path) = true)
+    (haway : ∀ lv ∈ L1, linkAway classes fuel hist.length path lv.1.2 = true) :
+    ListLen p os.length s'.root := by
+  simp only [commitObj, hc, hsplit] at h
+  rw [List.reverse_append, List.reverse_cons, List.append_assoc, List.foldlM_append] at h
+  simp only [bind, Except.bind] at h
+  cases hA : List.foldlM (pushLink (commitObj classes fuel) hist) s L2.reverse with
+  | error e => rw [hA] at h; cases h
+  | ok sA =>
+    rw [hA] at h
+    simp only [List.singleton_append, List.foldlM, bind, Except.bind] at h
+    cases hB : pushLink (commitObj classes fuel) hist sA
+        ((a, .objs path ccls defaults childNames guards acts names), .list os) with
+    | error e => rw [hB] at h; cases h
+    | ok sB =>
+      rw [hB] at h
+      have hlenQ : ∀ w, Diverge w p → Pres (ListLen p os.length) w := fun w hd => pres_len_diverge p w _ hd
+      have h1 : ListLen p os.length sB.root := by
+        refine pushLink_objs_len (commitObj classes fuel) (foot classes fuel) hist sA sB a path ccls defaults childNames
+          guards acts names os p hp ?_ ?_ ?_ hB
+        · intro hh o t t' ht hpres hq
+          exact commitObj_inv _ classes fuel ccls hh o t t' ht hpres hq
+        · intro oi hoi w hw
+          exact pres_len_of_below p w _ oi.2 (foot_below classes fuel ccls path hist oi.2 oi.1 p hp hnest w hw)
+        · intro act hact
+          exact hlenQ _ (resolve_diverge hist _ path _ p (resolve_dest hist path p act.dest hp) hp
+                          (List.all_eq_true.mp hown act hact))
+      refine foldlM_inv (ListLen p os.length) _ L1.reverse ?_ sB s' h h1
+      intro lv hlv t t' ht hq
+      refine pushLink_inv _ (commitObj classes fuel) (foot classes fuel) ?_ hist t t' lv ht ?_ hq
+      · intro cc hh o u u' hu hpres hQu
+        exact commitObj_inv _ classes fuel cc hh o u u' hu hpres hQu
+      · exact linkAway_pres classes fuel hist path p hp _ hlenQ lv (haway lv (by simpa using hlv))
+
+end Aoe.Props.CommitFrame
+
+namespace Aoe.Props.CommitFrame
+open Aoe Aoe.Codec Aoe.Lens Aoe.Commit Aoe.Props.Links
+
+theorem mem_take_zip_fst {α β : Type} (j : Nat) (l : List α) (v : List β) (x : α × β)
+    (h : x ∈ (l.zip v).take j) : x.1 ∈ l.take j := by
+  induction j generalizing l v with
+  | zero => simp at h
+  | succ j ih =>
+    cases l with
+    | nil => simp at h
+    | cons a l =>
+      cases v with
+      | nil => simp at h
+      | cons b v =>
+        simp only [List.zip_cons_cons, List.take_succ_cons, List.mem_cons] at h ⊢
+        rcases h with rfl | h
+        · exact Or.inl rfl
+        · exact Or.inr (ih l v h)
+
+/-- the decidable side conditions of `commit_objs_len` for link number `j` of class `c` at nesting depth `k` -/
+def listSafe (classes : List ClassSpec) (fuel : Nat) (c : ClassSpec) (k j : Nat) : Bool :=
+  match c.links[j]? with
+  | some (_, .objs path ccls _ _ _ acts _) =>
+    wellNested classes fuel ccls path k && acts.all (fun x => PDiverge (destPPath path x.dest) path) &&
+      (c.links.take j).all (fun l => linkAway classes fuel k path l.2)
+  | _ => false
+
+/-- `commit_objs_len` with its side conditions packed into the decidable `listSafe` -/
+theorem commit_objs_len_of_safe (classes : List ClassSpec) (fuel cls : Nat) (hist : List Nat) (vals : List Val)
+    (s s' : Sections) (c : ClassSpec) (hc : classes[cls]? = some c)
+    (h : commitObj classes (fuel + 1) cls hist (.strct vals) s = .ok s')
+    (j : Nat) (hsafe : listSafe classes fuel c hist.length j = true)
+    (os : List Val) (hv : vals[j]? = some (.list os)) :
+    ∃ a path ccls defaults childNames guards acts names,
+      c.links[j]? = some (a, .objs path ccls defaults childNames guards acts names) ∧
+      ∀ p, resolve hist path = some p → ListLen p os.length s'.root := by
+  unfold listSafe at hsafe
+  cases hl : c.links[j]? with
+  | none => simp [hl] at hsafe
+  | some l =>
+    obtain ⟨a, k⟩ := l
+    cases k with
+    | objs path ccls defaults childNames guards acts names =>
+      simp only [hl, Bool.and_eq_true] at hsafe
+      obtain ⟨⟨hnest, hown⟩, haway⟩ := hsafe
+      refine ⟨a, path, ccls, defaults, childNames, guards, acts, names, rfl, ?_⟩
+      have hjl : j < c.links.length := by
+        rcases List.getElem?_eq_some_iff.mp hl with ⟨h', _⟩; exact h'
+      have hjv : j < vals.length := by
+        rcases List.getElem?_eq_some_iff.mp hv with ⟨h', _⟩; exact h'
+      have hjz : j < (c.links.zip vals).length := by simp; omega
+      have hzj : (c.links.zip vals)[j] = ((a, LinkKind.objs path ccls defaults childNames guards acts names), Val.list os) := by
+        rw [List.getElem_zip]
+        have h1 := List.getElem?_eq_some_iff.mp hl
+        have h2 := List.getElem?_eq_some_iff.mp hv
+        obtain ⟨_, e1⟩ := h1
+        obtain ⟨_, e2⟩ := h2
+        simp [e1, e2]
+      have hsplit : c.links.zip vals = (c.links.zip vals).take j ++
+          ((a, LinkKind.objs path ccls defaults childNames guards acts names), Val.list os) :: (c.links.zip vals).drop (j + 1) := by
+        rw [← hzj, List.getElem_cons_drop]; exact (List.take_append_drop j _).symm
+      intro p hp
+      refine commit_objs_len classes fuel cls hist vals s s' c hc h _ _ a path ccls defaults childNames guards acts names os
+        hsplit p hp hnest hown ?_
+      intro lv hlv
+      exact List.all_eq_true.mp haway lv.1 (mem_take_zip_fst j c.links vals lv hlv)
+    | _ => simp [hl] at hsafe
+
+end Aoe.Props.CommitFrame
